@@ -286,7 +286,8 @@ def run(ctx):
     nw = ctx.fn(CTXT + "::new")
     if we and nw:
         # nonce: on use_test_rng == false edges comes from create_secnonce
-        tp = [p[0] for n, p, a in we.vars if n == "use_test_rng" and a > 0]
+        tpp = c.param(we, "use_test_rng", "bool", 0)
+        tp = [tpp] if tpp is not None else []
         g = cfg.local_guard(we, tp[0]) if tp else None
         sn = cfg.find_calls(we, "grin_core::libtx::aggsig::create_secnonce")
         fixed = cfg.find_calls(we, "secp256k1zkp::key::SecretKey::from_slice")
@@ -304,7 +305,8 @@ def run(ctx):
             run.instance(R6, {"fn": "Context::with_excess", "obligation": "literal: sec_nonce from create_secnonce, sec_key from the parameter"}, held=held)
             if not held:
                 run.finding(Finding(R6, we.id, "Context literal secrets have unexpected producers", site=we.loc()))
-        tp = [p[0] for n, p, a in nw.vars if n == "use_test_rng" and a > 0]
+        tpp = c.param(nw, "use_test_rng", "bool", 0)
+        tp = [tpp] if tpp is not None else []
         g = cfg.local_guard(nw, tp[0]) if tp else None
         # match on bool compiles to switchInt on the param directly
         rng = cfg.find_calls(nw, "rand::rngs::thread::thread_rng")
